@@ -223,10 +223,8 @@ theorem closeEvent_ne_empty (l : LoopSt ℚ σ) (e : EvId) : closeEvent l e ≠ 
   split
   · intro h; cases h
   · split
+    · split <;> intro h <;> cases h
     · intro h; cases h
-    · split
-      · split <;> intro h <;> cases h
-      · intro h; cases h
 
 /-- `peek()` says `Infinity` exactly when `Environment.step` would raise `EmptySchedule` -/
 theorem peek_none_iff_step_empty (body : σ → Resume → Burst ℚ σ) (fuel : Nat) (k : KState ℚ σ) :
